@@ -103,7 +103,7 @@ def gen(rng, tier):
             "look_for": rng.sample(["featuretype", "chrom", "attribute_keys", "feature_count", "strand", "source"], rng.randint(1, 4)),
             "limit": rng.choice([None, None, 1, 2, n, n + 1, 0]),
             # the documented default of look_for, and the same question asked twice in one process
-            "default_look_for": rng.random() < 0.3, "twice": rng.random() < 0.5}
+            "default_look_for": rng.random() < 0.3, "twice": rng.random() < 0.5, "via_dataiter": rng.random() < 0.5}
     db_delete_at = rng.choice([None, None, 3, 1005])
     if n >= 1000 and rng.random() < 0.7:
         # long source: make sure the "source modified while it is read" scenario is exercised across any internal batching
@@ -116,6 +116,8 @@ def gen(rng, tier):
             "db_delete_at": db_delete_at, "gz_members": rng.choice([1, 1, 2, 3]),
             # what real annotation files carry between their feature lines
             "failed_update_probe": rng.random() < 0.2,
+            "resume": {"form": rng.choice(["gen", "iter1"]), "at": rng.randint(1, max(1, n)), "checklines": rng.choice([0, 1, 2, 10])}
+            if rng.random() < 0.3 else None,
             "reuse": {"inner": rng.choice(["list", "path", "string"]), "at": rng.randint(1, max(1, n)), "checklines": rng.choice([0, 1, 10])}
             if rng.random() < 0.3 else None,
             "noise": rng.choice([None, None, {"directive": True, "comment": 2, "blank": 3, "tail_blank": True},
@@ -314,6 +316,19 @@ def run(case):
                 else:
                     probes["dataiterator_object_reused_after_failure_and_again"] = 1
 
+        # ---- a one-shot source behind a DataIterator whose transform fails once: the caller catches it and reads on
+        rs = case.get("resume")
+        if rs and not V and n >= 2:
+            r = call(node, {"op": "dataiter_resume", "src": "rs", "data": _spec(case, rs["form"], "rs.gff"), "kw": {"checklines": rs["checklines"]},
+                            "transform": {"kind": "identity", "raise_once_at": rs["at"]}})
+            if r["ok"] and r["failed"]:
+                if len(r["first"]) + 1 + len(r["rest"]) != n or r["ledger"]["pulled"] != list(range(n)):
+                    V.append(viol("C13.peek", "one-shot %s behind a DataIterator (checklines=%d), transform failing once: %d features before the "
+                                  "failure, %d after resuming, of %d (each at most once, the failing one lost)" % (
+                                      rs["form"], rs["checklines"], len(r["first"]), len(r["rest"]), n), kind="resume_count", form=rs["form"]))
+                else:
+                    probes["iteration_resumed_after_transform_failure"] = 1
+
         # ---- from_string specifics: the temporary copy of the text (its name, its lifetime, how it is written)
         sx = case.get("string_extras") or {}
         text = _noisy(G.render_text(feats, _d(case)), case.get("noise"))
@@ -459,7 +474,19 @@ def run(case):
                 op["data"] = _spec(case, ins["form"], "i.gff")
                 base = [{"cols": f["cols"], "attrs": f["attrs"]} for f in feats]
             if base is not None:
+                via = ins["form"] in ("gen", "iter1") and ins.get("via_dataiter")
+                if via:
+                    op["via_dataiter"] = True
                 r = call(node, op)
+                if via and r["ok"]:
+                    lim_ = ins["limit"]
+                    cnt_ = len(base) if not lim_ else min(len(base), lim_)
+                    if r.get("rest_n") != len(base) - cnt_:
+                        V.append(viol("C13.inspect", "inspect(limit=%r) of a one-shot %s stream of %d features left %r features for the caller "
+                                      "to read on, expected %d" % (lim_, ins["form"], len(base), r.get("rest_n"), len(base) - cnt_),
+                                      kind="inspect_consumed", form=ins["form"]))
+                    else:
+                        probes["read_on_after_inspect_limit"] = 1
                 if r["ok"] and ins.get("twice"):
                     r = call(node, op)  # asked again: same answer
                     probes["inspect_asked_twice"] = 1
